@@ -11,7 +11,7 @@ Headline theorems only.  Conventions:
   English claim.
 * Signatures are ideal: `verify pk m σ ⇔ σ = ⟨pk, m⟩` (`verify_iff`).  Unforgeability of ECDSA is lnd/btcd's.
 * The hashed preimages are built from the argument lists REGENERATED from `sidecar/interfaces.go`
-  (`Gen.ticketOfferDigest`, `Gen.ticketOrderDigest`); the `decide` obligations over those tables
+  (`Gen.C14.ticketOfferDigest`, `Gen.C14.ticketOrderDigest`); the `decide` obligations over those tables
   (`C14_offer_terms_bound`, `C14_order_terms_bound`, `C14_digest_functions_as_modelled`, and the lemmas
   `offerTable_eq` / `orderTable_eq` every semantic theorem below rests on) are re-checked against the
   current source on every run.
@@ -41,19 +41,19 @@ def orderRequired (versions : List Nat) : List String :=
 
 def boundBy (required : List Nat → List String) (f : Gen.DigestFn) : Prop :=
   (∀ c ∈ f.cases, required c.versions ⊆ c.args.map (·.expr)) ∧
-  [Gen.sidecarVersionDefault, Gen.sidecarVersionUnannouncedZeroConf] ⊆ f.cases.flatMap (·.versions)
+  [Gen.C14.sidecarVersionDefault, Gen.C14.sidecarVersionUnannouncedZeroConf] ⊆ f.cases.flatMap (·.versions)
 
 instance (required : List Nat → List String) (f : Gen.DigestFn) : Decidable (boundBy required f) := by
   unfold boundBy; exact inferInstance
 
 /-- Every version case of `Ticket.OfferDigest` hashes ID, version, capacity, push amount and the automation
 flag, and from version 1 on the unannounced and zero-conf flags; both known versions have a case. -/
-theorem C14_offer_terms_bound : boundBy offerRequired Gen.ticketOfferDigest := by decide
+theorem C14_offer_terms_bound : boundBy offerRequired Gen.C14.ticketOfferDigest := by decide
 
 /-- Every version case of `Ticket.OrderDigest` hashes ID, version, capacity, push amount and the BID NONCE,
 and from version 1 on the two flags.  (Fails to build against the unrepaired source, whose v1 case hashes
 `t.Offer.Auto` instead of the nonce.) -/
-theorem C14_order_terms_bound : boundBy orderRequired Gen.ticketOrderDigest := by decide
+theorem C14_order_terms_bound : boundBy orderRequired Gen.C14.ticketOrderDigest := by decide
 
 /-- the v1 argument list of `OrderDigest` in the pinned (unrepaired) source -/
 def unrepairedV1OrderArgs : List String :=
@@ -97,7 +97,7 @@ def argOK (a : Gen.DigestArg) : Bool :=
   match parseExpr a.expr with
   | none => false
   | some tm =>
-    (encTerm dummyTicket tm).map FV.widthClass == writerWidth Gen.codecCases a.goType &&
+    (encTerm dummyTicket tm).map FV.widthClass == writerWidth Gen.Codec.codecCases a.goType &&
     (tm != .id || a.goType == "[8]byte[:]") && (tm != .bidNonce || a.goType == "[32]byte[:]")
 
 def fnOK (f : Gen.DigestFn) (guards : List String) : Bool :=
@@ -112,8 +112,8 @@ def fnOK (f : Gen.DigestFn) (guards : List String) : Bool :=
 `t.State < StateOrdered || t.Order == nil`, switch on `t.Version`, one `WriteElements` per case whose
 arguments have the element widths the model uses, error in the default clause, SHA-256 of the buffer. -/
 theorem C14_digest_functions_as_modelled :
-    fnOK Gen.ticketOfferDigest [] = true ∧
-    fnOK Gen.ticketOrderDigest ["if t.State < StateOrdered || t.Order == nil { return result, fmt.Errorf(\"invalid state for order digest\") }"] = true := by
+    fnOK Gen.C14.ticketOfferDigest [] = true ∧
+    fnOK Gen.C14.ticketOrderDigest ["if t.State < StateOrdered || t.Order == nil { return result, fmt.Errorf(\"invalid state for order digest\") }"] = true := by
   decide
 
 /-! ## preimage injectivity: the digest input determines every covered term -/
@@ -207,6 +207,22 @@ theorem C14_offer_sig_is_no_order_sig (H : Bytes → Bytes) (t t' : Ticket) (h :
   simp only [ho', Option.bind_some, hg, hg'] at hs
   injection hs with hs; injection hs with e1 e2
   exact ⟨p, p', hp, hp', offer_ne_order_preimage h h' hp hp', e2.symm⟩
+
+/-- What the signatures do NOT bind (also not claimed by the property): the offered lease duration, the ticket
+state, the recipient and the signatures themselves are not part of either hashed preimage. -/
+theorem C14_fields_not_signed (t : Ticket) (lease state : Nat) (r : Option Recipient) (σ : Option Sig) :
+    offerPreimage { t with leaseDuration := lease, state := state, recipient := r, sigOffer := σ } =
+      offerPreimage t ∧
+    (¬ state < stateOrdered → ¬ t.state < stateOrdered →
+      orderPreimage { t with leaseDuration := lease, state := state, recipient := r, sigOffer := σ } =
+        orderPreimage t) := by
+  constructor
+  · rw [offerPreimage_eq, offerPreimage_eq]; rfl
+  · intro h1 h2
+    rw [orderPreimage_eq, orderPreimage_eq]
+    cases ho : t.order with
+    | none => simp [ho]
+    | some o => simp [ho, h1, h2, orderFVs0, orderFVs1]
 
 /-! ## honest tickets verify -/
 
@@ -312,8 +328,8 @@ theorem C14_provider_signs_only_if (H : Bytes → Bytes) (t t' : Ticket) (bid : 
                           · simp [hba] at hc
                         · exfalso
                           have : t.pushAmt > t.capacity := by omega
-                          simp [hc0, hcm, this, inbound, outbound, Gen.orderBTCInboundLiquidity,
-                            Gen.orderBTCOutboundLiquidity] at hcp
+                          simp [hc0, hcm, this, inbound, outbound, Gen.C14.orderBTCInboundLiquidity,
+                            Gen.C14.orderBTCOutboundLiquidity] at hcp
                       · simp [hc0, hcm] at hcp
                 · simp [ha] at hc
             · simp [hk] at hok
